@@ -55,26 +55,26 @@ type thr struct {
 }
 
 type session struct {
-	id        int
-	rid       string
-	gate      *gateConn
-	a2, b1    net.Conn
-	frames    chan frame
-	done      chan struct{}
-	alive     bool // receiver's receiveLoop is running
-	active    bool // sender has the reader
-	stalled   bool
-	inflight  *oprec
-	infEnt    ent
-	tags      map[string]uint64
-	sent      []ent
-	since     int
-	W         []frame
-	honest    bool
+	id            int
+	rid           string
+	gate          *gateConn
+	a2, b1        net.Conn
+	frames        chan frame
+	done          chan struct{}
+	alive         bool // receiver's receiveLoop is running
+	active        bool // sender has the reader
+	stalled       bool
+	inflight      *oprec
+	infEnt        ent
+	tags          map[string]uint64
+	sent          []ent
+	since         int
+	W             []frame
+	honest        bool
 	atWindowStart bool
-	applyFail bool
-	applied   []ent
-	queuedAt  int // len(world.popped) at connect
+	applyFail     bool
+	applied       []ent
+	queuedAt      int // len(world.popped) at connect
 }
 
 type world struct {
@@ -364,11 +364,10 @@ func (w *world) collect(rec *oprec, e ent) {
 			return
 		}
 		l, err := w.noteSenderFrame(s, f2)
-		if err != "" {
-			rec.out = fmt.Sprintf("sent seq=%d ck=%s", pe.Sequence, err)
-			return
-		}
 		ckS = fmt.Sprint(l)
+		if err != "" {
+			ckS += "!" + err
+		}
 		s.since = 0
 		w.c.Tag("dist:checkpoint")
 	}
@@ -652,7 +651,7 @@ func (w *world) send(f frame, applyOk bool, drift int64) string {
 		if s.honest && !s.applyFail {
 			w.nontriv = true
 			w.fail("healthy-connection-dropped:"+strings.TrimPrefix(out, "drop:"),
-				fmt.Sprintf("the wire delivered exactly what the sender wrote (no fault injected, no apply error) and the reader dropped the connection: %s (producers interleaved between sequence assignment and enqueue)", out))
+				fmt.Sprintf("the wire delivered exactly what the sender wrote (no fault injected, no apply error) and the reader dropped the connection: %s", out))
 		}
 	}
 	return out
